@@ -1,6 +1,6 @@
 def _e(name, fn, op, repl, reach, **kw):
     d = dict(name=name, enforce=fn, harness="emcy_fn.c", tus=["service/cia301/co_emcy.c"], defs=["VW_OP=%d" % op, "CO_EMCY_N=8"], nondet_static=True,
-             replace=repl, reach=["post"] + reach, unwind_all=9, props={"C15": "quick", "C01": "quick"}, timeout=600, cost=20, object_bits=10,
+             replace=repl, reach=["post"] + reach, unwind_all=9, props={"C15": "quick", "C01": "quick"}, timeout=600, cost=20, object_bits=10, sat="cadical",
              bounded="build configuration CO_EMCY_N=8 errors (all tables, classes, codes, states symbolic); counting invariants over 32 errors are intractable for SAT")
     d.update(kw)
     return d
@@ -13,19 +13,13 @@ _Q20 = {"C15": "quick", "C01": "quick", "C20": "quick"}
 def _n5(op, extra=()):
     return ["VW_OP=%d" % op, "CO_EMCY_N=5"] + list(extra)
 GROUPS = [
- _e("emcy_set", "COEmcySet", 0, _DV + ["COEmcyHistAdd"], ["a", "b"], props=_T),
- _e("emcy_clr", "COEmcyClr", 1, _DV, ["a", "b"], props=_T),
- _e("emcy_get", "COEmcyGet", 2, [], [], props=_T),
- _e("emcy_cnt", "COEmcyCnt", 3, [], ["a"], props=_T),
-# (COEmcyReset with 8 errors and frames, non-silent: cbmc does not finish within 80 min - not registered; the 5-error group emcy_reset5 and the
-#  8-error silent group emcy_reset_silent stand for it)
- _e("emcy_reset_silent", "COEmcyReset", 4, _DV, ["a"], timeout=1200, object_bits=12, props=_T20, defs=["VW_OP=4", "CO_EMCY_N=8", "VW_SILENT_ONLY"]),
- _e("emcy_set5", "COEmcySet", 0, _DV + ["COEmcyHistAdd"], ["a", "b"], props=_Q, defs=_n5(0), bounded=_B5),
- _e("emcy_clr5", "COEmcyClr", 1, _DV, ["a", "b"], props=_Q, defs=_n5(1), bounded=_B5),
- _e("emcy_get5", "COEmcyGet", 2, [], [], props=_Q, defs=_n5(2), bounded=_B5),
- _e("emcy_cnt5", "COEmcyCnt", 3, [], ["a"], props=_Q, defs=_n5(3), bounded=_B5),
- _e("emcy_reset5", "COEmcyReset", 4, _DV, ["a"], timeout=1200, object_bits=12, props=_Q20, defs=_n5(4), bounded=_B5),
- _e("emcy_reset_silent5", "COEmcyReset", 4, _DV, ["a"], timeout=1200, object_bits=12, props=_Q20, defs=_n5(4, ["VW_SILENT_ONLY"]), bounded=_B5),
+ _e("emcy_set", "COEmcySet", 0, _DV + ["COEmcyHistAdd"], ["a", "b"], props=_Q),
+ _e("emcy_clr", "COEmcyClr", 1, _DV, ["a", "b"], props=_Q),
+ _e("emcy_get", "COEmcyGet", 2, [], [], props=_Q),
+ _e("emcy_cnt", "COEmcyCnt", 3, [], ["a"], props=_Q),
+# SAT solver CaDiCaL (cbmc --sat-solver cadical): the five 8-error groups take 80 s together; with MiniSat they were thorough-only and
+# COEmcyReset with 8 errors and frames did not finish within 80 min (now group emcy_reset8 in round2d.py).  The 5-error stand-ins are gone.
+ _e("emcy_reset_silent", "COEmcyReset", 4, _DV, ["a"], timeout=1200, object_bits=12, props=_Q20, defs=["VW_OP=4", "CO_EMCY_N=8", "VW_SILENT_ONLY"]),
 ]
 
 def _h(name, fn, op):
